@@ -159,7 +159,7 @@ func (s *Solver) define(t *Term) {
 	case OVar:
 		if !s.declVars[t.ID] {
 			s.declVars[t.ID] = true
-			s.send(fmt.Sprintf("(declare-const %s %s)", smtName(t.Name), t.Sort))
+			s.send(fmt.Sprintf("(declare-const %s %s)", t.varName(), t.Sort))
 		}
 		return
 	}
